@@ -11,6 +11,7 @@ def main(tier, seed, replay, no_selftest):
     st = {}
     if not no_selftest:
         t = time.time()
+        st['token_table'] = selftest.c11_token_table()
         st['determinism'] = selftest.c11_determinism(seed, 'quick', 200 if tier == 'thorough' else 64)
         st['oracle_vs_fresh_interpreter'] = selftest.c11_oracle_fidelity(seed, 40 if tier == 'thorough' else 24)
         st['wall_s'] = round(time.time() - t, 2)
